@@ -24,7 +24,9 @@ BUDGET = {'quick': (600, 1500), 'thorough': (1800, 3600)}
 TECHNIQUE = 'runtime monitoring: differential reference-model monitor (independent cleartext framework + verifier) + GnuPG second oracle'
 
 ALPHABET = ['-', '- ', '-----BEGIN PGP SIGNATURE-----', '-----BEGIN PGP SIGNED MESSAGE-----', 'From here', '', 'a', 'trailing space ', 'trailing tab\t', 'mixed \t ',
-            '- - already escaped', '--', 'Hash: SHA1', 'é accent', '日本語', '\U0001F600 emoji', ' leading space', 'x' * 300, '-----END PGP SIGNATURE-----', '=abcd']
+            '- - already escaped', '--', 'Hash: SHA1', 'é accent', '日本語', '\U0001F600 emoji', ' leading space', 'x' * 300, '-----END PGP SIGNATURE-----', '=abcd',
+            # characters that Python's str.splitlines() treats as line boundaries but OpenPGP does not, each followed by a dash
+            'lone cr\r-dash', 'form feed\x0c- dash', 'vt\x0b-dash', 'nel\u0085-dash', 'ls\u2028- dash', 'ps\u2029-dash', 'fs\x1c-dash \x1d-- \x1e-']
 SIGNERS = ['ed25519_0', 'rsa1024_0', 'dsa1024_0', 'ecdsa_p256_0']
 
 
